@@ -68,13 +68,14 @@ def show(e):
         if e.op=='var': return e.args[0]
         if e.op=='neg': return f"(-{show(e.args[0])})"
         if e.op=='powi': return f"({show(e.args[0])}^{e.args[1]})"
-        if e.op in ('sqrt','cos','acos'): return f"{e.op}({show(e.args[0])})"
+        if e.op in ('sqrt','cos','acos','sin','abs'): return f"{e.op}({show(e.args[0])})"
+        if e.op in ('max','min','atan2','rpow'): return f"{e.op}({show(e.args[0])},{show(e.args[1])})"
         o={'add':'+','sub':'-','mul':'*','div':'/'}[e.op]
         return f"({show(e.args[0])} {o} {show(e.args[1])})"
     if isinstance(e,(list,tuple)): return "["+", ".join(show(x) for x in e)+"]"
     return repr(e)
 def showc(c,d):
-    o={'lt':'<','le':'≤','gt':'>','ge':'≥','eq':'=','ne':'≠'}[c.op]
+    o={'lt':'<','le':'≤','gt':'>','ge':'≥','eq':'=','ne':'≠','isclose':'≈'}[c.op]
     s=f"{show(c.a)} {o} {show(c.b)}"
     return s if d else f"¬({s})"
 def V(n): return Sym('var',n)
